@@ -217,10 +217,13 @@ func verifC08Name(t plumbing.ObjectType, c []byte) []byte {
 // three shapes (the command bytes are concrete, the literal is symbolic;
 // arbitrary delta streams are C06): 0 = insert the literal, 1 = copy the whole
 // base, 2 = copy the whole base then insert the literal. A base of length 0
-// cannot be copied from (a copy of size 0 means 0x10000), so shapes 1 and 2
-// degrade to shape 0.
+// cannot be copied from (a copy of size 0 means 0x10000): shapes 1 and 2 then
+// yield nil and the caller drops the case (shape 0 covers it).
 func verifC08Delta(l int, shape int, lit []byte) []byte {
-	if l == 0 || shape == 0 {
+	if l == 0 && shape != 0 {
+		return nil
+	}
+	if shape == 0 {
 		d := []byte{byte(l), byte(len(lit))}
 		if len(lit) > 0 {
 			d = append(d, byte(len(lit)))
@@ -320,6 +323,9 @@ func VerifHarness_C08_parse() {
 			}
 			if !e.done {
 				delta := verifC08Delta(len(src), e.shape, e.lit)
+				if delta == nil {
+					return
+				}
 				out, ok := gitPatchDelta(src, delta)
 				verifrt.Assert(ok, "c08-parse-harness-builds-valid-deltas")
 				e.content, e.done = out, true
@@ -384,6 +390,15 @@ func VerifHarness_C08_parse() {
 	for i := range fails {
 		anyFail = anyFail || fails[i]
 	}
+	// second known class: a delta on an in-pack object of size 0, read from a
+	// non-seekable stream without a storage
+	emptyBase := false
+	for _, e := range es {
+		if (e.kind == verifC08Ofs || e.kind == verifC08Ref) && len(es[e.base].content) == 0 {
+			emptyBase = true
+		}
+	}
+	emptyBase = emptyBase && !withStore && !seekable
 
 	obs := &verifC08Obs{}
 	opts := []ParserOption{WithScannerObservers(obs)}
@@ -399,11 +414,9 @@ func VerifHarness_C08_parse() {
 	p := NewParser(src, opts...)
 	sum, err := p.Parse()
 
-	if !verifrt.Symbolic() && err != nil {
-		println("DEBUG err:", err.Error(), "n", n, "kinds", es[0].kind, es[0].base, es[1].kind, es[1].base, "store", withStore, "seek", seekable)
-	}
 	verifrt.Reach("c08-parse-well-formed")
 	verifrt.Known("C08-thin-delta-on-thin-delta", anyFail)
+	verifrt.Known("C08-delta-on-empty-base-unseekable", emptyBase)
 	verifrt.Assert(err == nil, "c08-parse-accepts-well-formed-pack")
 	if err != nil {
 		return
